@@ -38,8 +38,8 @@ fn exec_process_twin(c: &crate::cli::CliCase, ctr: &mut Ctr) -> Result<Exec, Str
     let a = crate::cli::run_cli(c, c.entropy, &sb)?;
     let b = crate::cli::run_cli(c, te, &sb)?;
     bump(ctr, "fault.process_entropy_twin");
-    if a.fired.calls == 0 {
-        return Err("shim not live: the child made no intercepted call".into());
+    if a.report.is_empty() {
+        return Err("shim not live: the child produced an empty shim report".into());
     }
     let mut violation = None;
     if a.exit != b.exit || a.stdout != b.stdout || a.after.bytes != b.after.bytes {
@@ -192,9 +192,20 @@ impl Prop for C05 {
             let i = rng.below(replicas.len().max(2) - 1);
             replicas[i].role = format!("logging-{}", replicas[i].role);
         }
+        if steps.len() > 1 && rng.pct(35) {
+            // lazy twin: renders only once, after the last delivery - the same sequence of documents and the same
+            // options must give the same bytes whether or not intermediate trees were rendered
+            let e = rng.u128();
+            replicas.push(Replica { role: "lazy-twin".into(), entropy: e, steps: steps.clone(), warmup: vec![] });
+        } else if steps.len() > 1 && rng.pct(15) {
+            // every document parsed into a fresh tree (a loop over files that reuses one variable)
+            for r in replicas.iter_mut() {
+                r.role = format!("restarting-{}", r.role);
+            }
+        }
         if rng.pct(15) {
             let i = rng.range(1, replicas.len() - 1);
-            if replicas[i].steps.len() > 1 && replicas[i].warmup.is_empty() {
+            if replicas[i].steps.len() > 1 && replicas[i].warmup.is_empty() && !replicas[i].role.contains("lazy") {
                 // migrating twin: every delivery on another fresh thread
                 replicas[i].role = format!("migrating-{}", replicas[i].role);
             }
@@ -244,8 +255,12 @@ impl Prop for C05 {
             if s.replicas[ri].role.starts_with("env-") {
                 bump(ctr, "fault.populated_environment_twin");
             }
+            let lazy = s.replicas[ri].role.contains("lazy-");
             for (si, st) in r.steps.iter().enumerate() {
                 sim_steps += st.stats.fill_calls + 1;
+                if lazy && si + 1 != r.steps.len() {
+                    continue;
+                }
                 add(ctr, "fault.eintr", st.stats.eintr_fired);
                 if let Some(p) = &st.panic {
                     violation.get_or_insert(Violation { class: "panic".into(), detail: format!("replica {ri} step {si}: {p}") });
@@ -286,6 +301,12 @@ impl Prop for C05 {
         super::count_decorations(s, ctr);
         if s.replicas.iter().any(|r| !r.warmup.is_empty()) {
             bump(ctr, "fault.veteran_thread_twin");
+        }
+        if s.replicas.iter().any(|r| r.role.contains("lazy-")) {
+            bump(ctr, "fault.lazy_render_twin");
+        }
+        if s.replicas.iter().any(|r| r.role.contains("restarting-")) {
+            bump(ctr, "fault.restarting_session");
         }
         if s.replicas.iter().any(|r| r.role.starts_with("logging")) {
             bump(ctr, "fault.logging_enabled_twin");
